@@ -87,6 +87,10 @@ def finish(rep, meta, wall, facts_hash, configs, explanation, assumptions, not_d
     known = load_known()
     os.makedirs(EVID, exist_ok=True)
     vdir = os.path.join(EVID, "%s.violations" % rep.prop)
+    if os.path.isdir(vdir):          # replay files of an earlier run are stale
+        for fn in os.listdir(vdir):
+            if fn.endswith(".json"):
+                os.unlink(os.path.join(vdir, fn))
     real = []
     known_hit = []
     for v in rep.violations:
